@@ -243,7 +243,10 @@ class OpenSystem:
                 dat = numpy.zeros((ham.dim,ham.dim),dtype=REAL)
                 for i in range(ham.dim):
                     dat[i,i] = ham._data[i,i]
-                ham_0 = Hamiltonian(data=dat)
+                # the values come from the storage of the Hamiltonian; they
+                # are in internal units whatever units are current
+                with energy_units("int"):
+                    ham_0 = Hamiltonian(data=dat)
                 ham_0.set_rwa(ham.rwa_indices)
 
             else:
@@ -259,7 +262,10 @@ class OpenSystem:
                 dat = numpy.zeros((ham.dim,ham.dim),dtype=REAL)
                 for i in range(ham.dim):
                     dat[i,i] = ham._data[i,i]
-                ham_0 = Hamiltonian(data=dat)
+                # the values come from the storage of the Hamiltonian; they
+                # are in internal units whatever units are current
+                with energy_units("int"):
+                    ham_0 = Hamiltonian(data=dat)
                 ham_0.set_rwa(ham.rwa_indices)
 
             # The Hamiltonian for propagation is the one without
@@ -305,7 +311,10 @@ class OpenSystem:
                 dat = numpy.zeros((ham.dim,ham.dim),dtype=REAL)
                 for i in range(ham.dim):
                     dat[i,i] = ham._data[i,i]
-                ham_0 = Hamiltonian(data=dat)
+                # the values come from the storage of the Hamiltonian; they
+                # are in internal units whatever units are current
+                with energy_units("int"):
+                    ham_0 = Hamiltonian(data=dat)
 
             # The Hamiltonian for propagation is the one without
             # resonance coupling
